@@ -413,9 +413,20 @@ func (fr *frame) frameCheckRange(st *State, base, off, n *Term, et types.Type, p
 	if u.specMode > 0 {
 		return
 	}
+	if base.Op == OpIte {
+		s1 := st.clone()
+		s1.pc = u.C.And(st.pc, base.Args[0])
+		fr.frameCheckRange(s1, base.Args[1], off, n, et, pos)
+		s2 := st.clone()
+		s2.pc = u.C.And(st.pc, u.C.Not(base.Args[0]))
+		fr.frameCheckRange(s2, base.Args[2], off, n, et, pos)
+		return
+	}
 	freshID := 0
 	if r, k := addrRoot(base); k == 1 && r.K > 0 {
 		freshID = r.K
+	} else if k == 5 {
+		return
 	}
 	check := func(reg *Region, kind, label string, minFresh int) {
 		if reg == nil || reg.All {
@@ -905,6 +916,19 @@ func (fr *frame) havocLoopCells(l *loop, st *State) {
 					}
 					t := a.Type().(*types.Pointer).Elem()
 					old := st.cells[a]
+					if osv, ok := old.(*SliceV); ok && !osv.Str && fr.grownOnlyIn(l, a) {
+						// a local slice that the loop only grows (append to itself / reslice of itself): at the head of an
+						// arbitrary iteration its backing array is the one it had before the loop, or an anonymous array
+						// allocated by an earlier iteration (unknown contents, distinct from every other object)
+						c := u.C
+						nm := u.freshName("L_" + a.Comment)
+						la := c.LocalAddrVar(nm + ".newbase")
+						u.symAddrs = append(u.symAddrs, la)
+						sv := &SliceV{Base: c.Ite(c.Var(nm+".samebase", SBool), osv.Base, la), Off: c.Var(nm+".off", BV(64)), Len: c.Var(nm+".len", BV(64)), Cap: c.Var(nm+".cap", BV(64))}
+						u.assumeSliceWF(nil, sv)
+						st.cells[a] = sv
+						continue
+					}
 					st.cells[a] = u.symVal(u.freshName("L_"+a.Comment), t, false)
 					// remembered for replay: a counterexample in the first iteration is reachable from the inputs
 					if ot, ok := old.(*Term); ok {
@@ -1122,4 +1146,39 @@ func (fr *frame) mapDelete(st *State, cc *ssa.CallCommon, args []Val, pos token.
 	// delete on a nil map is a no-op: the flag write is harmless there (lookups test m != nil)
 	u.writeCell(st, "bool", c.Fld(cell, fMapPresent), c.False)
 	return nil
+}
+
+// grownOnlyIn: every store to the register-like slice variable a inside loop l assigns append(a, ...), a reslice of a,
+// or a freshly made slice.
+func (fr *frame) grownOnlyIn(l *loop, a *ssa.Alloc) bool {
+	if _, ok := a.Type().(*types.Pointer).Elem().Underlying().(*types.Slice); !ok {
+		return false
+	}
+	isSelf := func(v ssa.Value) bool {
+		ld, ok := v.(*ssa.UnOp)
+		return ok && ld.Op == token.MUL && ld.X == a
+	}
+	for b := range l.blocks {
+		for _, in := range b.Instrs {
+			s, ok := in.(*ssa.Store)
+			if !ok || s.Addr != a {
+				continue
+			}
+			switch v := s.Val.(type) {
+			case *ssa.Call:
+				bi, ok := v.Call.Value.(*ssa.Builtin)
+				if !ok || bi.Name() != "append" || !isSelf(v.Call.Args[0]) {
+					return false
+				}
+			case *ssa.Slice:
+				if !isSelf(v.X) {
+					return false
+				}
+			case *ssa.MakeSlice:
+			default:
+				return false
+			}
+		}
+	}
+	return true
 }
